@@ -44,8 +44,8 @@ def optIdsStr (l : List (Option ObjRec)) : String :=
 def dstr (px py : Rat) (l : List ObjRec) : String :=
   " ".intercalate (l.map fun o => ratStr (odist px py o))
 
-def judgeQuery (h : Hist) (s : List ObjRec) (t : Tree ObjRec) (q : KQ) (a : Tok) : Option String :=
-  let exact := h.maxC ≤ 11
+def judgeQuery (h : Hist) (s : List ObjRec) (t : Tree ObjRec) (treeSame : Bool) (q : KQ) (a : Tok) : Option String :=
+  let exact := h.maxC ≤ 11 && treeSame
   let at_ := s!"p=({ratStr q.x},{ratStr q.y})-k={q.k}-stored={s.length}"
   if q.k == 0 then
     let m := nearestNeighbor stableOrder t q.x q.y
@@ -61,7 +61,7 @@ def judgeQuery (h : Hist) (s : List ObjRec) (t : Tree ObjRec) (q : KQ) (a : Tok)
           some s!"SPEC NearestNeighbor-{at_}-returned-{o.id}-at-dist2={ratStr (odist q.x q.y o)}-min-is-{ratStr ((s.map (odist q.x q.y)).foldl min (odist q.x q.y o))}"
         else match m with
           | .ok mo => if exact && mo != o then some s!"DIFF nn-object-differs-from-model-{at_}" else none
-          | .error f => some s!"DIFF nn-model-faults-{at_}"
+          | .error f => if treeSame then some s!"DIFF nn-model-faults-{at_}" else none
     | _ => some "SPEC bad-answer-syntax"
   else
     match a with
@@ -74,7 +74,7 @@ def judgeQuery (h : Hist) (s : List ObjRec) (t : Tree ObjRec) (q : KQ) (a : Tok)
           some s!"SPEC NearestNeighbors-{at_}-returned=[{optIdsStr res}]-dist2=[{dstr q.x q.y (res.filterMap id)}]"
         else match nearestNeighbors stableOrder t q.k q.x q.y with
           | .ok mr => if exact && mr != res then some s!"DIFF knn-objects-differ-from-model-{at_}-model=[{optIdsStr mr}]-impl=[{optIdsStr res}]" else none
-          | .error f => some s!"DIFF knn-model-faults-{at_}"
+          | .error f => if treeSame then some s!"DIFF knn-model-faults-{at_}" else none
     | _ => some "SPEC bad-answer-syntax"
 
 def judgeLine (line : String) : String :=
@@ -98,16 +98,18 @@ def judgeLine (line : String) : String :=
             match runOps goHeur (newTree h.minC h.maxC) ops with
             | .error f => s!"DIFF {cls} model-faults-in-history(C11)"
             | .ok mt =>
-              if nodeStr n != nodeStr mt.root then s!"DIFF {cls} final-tree-differs-from-model(C11)"
-              else
-                let answers := splitBars t
-                if answers.length != kqs.length then s!"SPEC {cls} missing-answers" else
-                let bad := (kqs.zip answers).filterMap fun (q, a) => judgeQuery h s mt q a
-                -- report SPEC before DIFF
-                match bad.find? (·.startsWith "SPEC"), bad.head? with
-                | some m, _ => s!"SPEC {cls} {(m.drop 5).toString}"
-                | none, some m => s!"DIFF {cls} {(m.drop 5).toString}"
-                | none, none => s!"OK {cls}-h{mt.height}"
+              -- the answers are judged by the Spec against the HISTORY's multiset `s` whether or not
+              -- the final tree agrees with the model; SPEC is reported before DIFF
+              let treeSame := nodeStr n == nodeStr mt.root
+              let answers := splitBars t
+              if answers.length != kqs.length then s!"SPEC {cls} missing-answers" else
+              let bad := (kqs.zip answers).filterMap fun (q, a) => judgeQuery h s mt treeSame q a
+              match bad.find? (·.startsWith "SPEC"), bad.head? with
+              | some m, _ => s!"SPEC {cls} {(m.drop 5).toString}"
+              | none, some m => s!"DIFF {cls} {(m.drop 5).toString}"
+              | none, none =>
+                if !treeSame then s!"DIFF {cls} final-tree-differs-from-model(C11)"
+                else s!"OK {cls}-h{mt.height}"
         | "panic" :: m => s!"SPEC {cls} history-panicked(C11)"
         | _ => "BAD result"
     | _ => "BAD no-K"
